@@ -90,6 +90,8 @@ impl Cache {
     #[instrument]
     pub fn remove(&self, pid: &str) -> Result<bool> {
         debug!("remove pid={pid}");
+        #[cfg(feature = "verif")]
+        crate::verif::point("cache.remove", pid, "");
         self.procs.remove(pid);
         self.store.remove_proc(pid)?;
         Ok(true)
@@ -126,12 +128,21 @@ impl Cache {
         self.procs.remove(pid);
     }
 
+    #[cfg(feature = "verif")]
+    pub(crate) fn verif_uncache(&self, pid: &str) {
+        self.procs.remove(pid);
+    }
+
     fn get_proc(&self, pid: &str) -> Option<Arc<Process>> {
+        #[cfg(feature = "verif")]
+        crate::verif::point("cache.get", pid, "");
         self.procs.get(pid)
     }
 
     pub(super) fn push_proc_pri(&self, proc: &Arc<Process>, save: bool) {
         debug!("push process pid={}", proc.id());
+        #[cfg(feature = "verif")]
+        crate::verif::point("cache.push", proc.id(), "");
         if save {
             self.store
                 .upsert_proc(proc)
@@ -142,6 +153,8 @@ impl Cache {
 
     pub(super) fn push_task_pri(&self, task: &Arc<Task>, save: bool) -> Result<()> {
         let p = task.proc();
+        #[cfg(feature = "verif")]
+        crate::verif::point("cache.upsert", &task.pid, &task.id);
         if save {
             // update process when updating the task
             let collection = self.store.procs();
